@@ -59,6 +59,12 @@ class Cfg(object):
             fl.append('-UNDEBUG')
         for d in self.defines:
             fl.append('-D' + d)
+        if self.std == 'c++2b':
+            # clang 14 + libstdc++ 12: std::is_constant_evaluated () is implemented with
+            # `if consteval` in C++23 mode and clang 14's condition folder evaluates it to *true*
+            # when emitting run-time code (a toolchain defect, not /repo's).  Making libstdc++
+            # fall back to __builtin_is_constant_evaluated gives the run-time arm, as g++ does.
+            fl.append('-U__cpp_if_consteval')
         return fl
 
 
@@ -115,7 +121,7 @@ def build_ir(cfg):
     """-> path of the SSA-form IR for cfg (cached).  Raises AnalysisBroken when it does not compile."""
     src = cfg.source()
     ll, rc, err = common.cached_tool(
-        ('ir0', cfg.name),
+        ('ir0', cfg.name, ' '.join(cfg.flags())),
         lambda s, o: [common.CLANGXX, '-O0', '-Xclang', '-disable-O0-optnone', '-g', '-S',
                       '-emit-llvm', '-w'] + cfg.flags() + [s, '-o', o],
         '.ll', src_text=src)
